@@ -677,10 +677,25 @@ fn js(v: &[OwnedValue]) -> Vec<String> {
     v.iter().map(|x| x.to_json()).collect()
 }
 
+/// A JSON text with its semi-index (built once, reused for many programs).
+pub struct Doc {
+    pub text: Vec<u8>,
+    pub ix: JsonIndex<Vec<u64>>,
+}
+
+impl Doc {
+    pub fn new(text: &[u8]) -> Doc {
+        Doc { text: text.to_vec(), ix: JsonIndex::build(text) }
+    }
+}
+
 /// Library ("full") evaluator.
 pub fn run_full(json: &[u8], e: &Expr) -> Obs {
-    let ix = JsonIndex::build(json);
-    let c = ix.root(json);
+    run_full_doc(&Doc::new(json), e)
+}
+
+pub fn run_full_doc(d: &Doc, e: &Expr) -> Obs {
+    let c = d.ix.root(&d.text);
     let r: QueryResult<Vec<u64>> = jq::eval::<Vec<u64>, JqSemantics>(e, c);
     let term = match &r {
         QueryResult::Error(e) => Term::Error(e.message.clone()),
@@ -697,8 +712,11 @@ pub fn run_full(json: &[u8], e: &Expr) -> Obs {
 /// lazy sequence is observed as the terminal; `LazyKeys` / `LazyIndexRange`
 /// cannot fail and go through the public `collect_owned`.
 pub fn run_generic(json: &[u8], e: &Expr) -> Obs {
-    let ix = JsonIndex::build(json);
-    let c = ix.root(json);
+    run_generic_doc(&Doc::new(json), e)
+}
+
+pub fn run_generic_doc(d: &Doc, e: &Expr) -> Obs {
+    let c = d.ix.root(&d.text);
     let r = eval_generic::eval_with_cursor(e, c);
     match r {
         GenericResult::LazySeq(seq) => match seq.materialize_atomic() {
